@@ -77,6 +77,12 @@ class Rig:
             os.link(self.stub, os.path.join(d, 'tools', t))
         os.link(self.stub, os.path.join(d, 'bin', 'cproc-qbe'))
         self.cfg['compilecmd'] = [os.path.join(d, 'bin', 'cproc-qbe').encode()]
+        # the driver reached through a symbolic link with another name in another directory (/usr/bin/cc -> cproc): the
+        # compiler proper is still the cproc-qbe beside the real executable
+        os.makedirs(os.path.join(d, 'linkdir'), exist_ok=True)
+        self.via_link = os.path.join(d, 'linkdir', 'cc')
+        if not os.path.lexists(self.via_link):
+            os.symlink(self.cproc, self.via_link)
         self.stdin_file = os.path.join(d, 'stdin.txt')
         open(self.stdin_file, 'wb').write(STDIN_MARK)
         self.nrun = 0
@@ -92,7 +98,7 @@ class Rig:
         os.makedirs(os.path.join(r, 'work', 'dir.d'))
         return r
 
-    def run(self, argv, r=None, env_extra=None, timeout=10, bindir=None, tooldir=None, preload=None, keep=False, prefix_cmd=None):
+    def run(self, argv, r=None, env_extra=None, timeout=10, bindir=None, tooldir=None, preload=None, keep=False, prefix_cmd=None, via_link=False):
         """argv: list of bytes.  Returns dict(rc, out, err, recs, files, wall, timed_out, leftover)."""
         r = r or self.fresh()
         work = os.path.join(r, 'work')
@@ -102,6 +108,8 @@ class Rig:
         if env_extra:
             env.update(env_extra)
         exe = os.path.join(bindir, 'cproc') if bindir else self.cproc
+        if via_link and not bindir:
+            exe = self.via_link
         cmd = [exe.encode()] + list(argv)
         if prefix_cmd:
             cmd = prefix_cmd + cmd
@@ -122,6 +130,10 @@ class Rig:
                     pass
                 out, err = p.communicate()
         wall = time.time() - t0
+        if via_link and not bindir:
+            # messages are prefixed with the name the driver was invoked by: put them into the canonical spelling
+            err = re.sub(rb'(?m)^cc: ', b'cproc: ', err)
+            err = re.sub(rb'(?mi)^usage: cc\b', b'usage: cproc', err)
         recs = read_records(os.path.join(r, 'logs'))
         # children still running after the driver has gone
         leftover = []
